@@ -71,3 +71,39 @@ def call_name(call: ast.Call) -> str:
 def calls_in(fn_node, *, shallow=True):
     it = walk_shallow(fn_node) if shallow else ast.walk(fn_node)
     return [n for n in it if isinstance(n, ast.Call)]
+
+
+def self_method_calls(fn_node):
+    """(call, method_name) for every self.<m>(...) call in a function (nested defs excluded)."""
+    out = []
+    for n in walk_shallow(fn_node):
+        if isinstance(n, ast.Call) and isinstance(n.func, ast.Attribute) and isinstance(n.func.value, ast.Name) \
+                and n.func.value.id == "self":
+            out.append((n, n.func.attr))
+    return out
+
+
+def methods_writing_operations(prog: Program) -> set[str]:
+    """Names of ExecutionState methods that (transitively via self-calls) mutate self.operations."""
+    sc = prog.cls("state", "ExecutionState")
+    direct = set()
+    MUT = {"update", "pop", "clear", "setdefault", "popitem", "__setitem__"}
+    for name, fn in sc.methods.items():
+        for n in ast.walk(fn.node):
+            if isinstance(n, ast.Call) and isinstance(n.func, ast.Attribute) and n.func.attr in MUT \
+                    and isinstance(n.func.value, ast.Attribute) and n.func.value.attr == "operations":
+                direct.add(name)
+            if isinstance(n, ast.Subscript) and isinstance(n.ctx, ast.Store) and isinstance(n.value, ast.Attribute) \
+                    and n.value.attr == "operations":
+                direct.add(name)
+    direct.discard("__init__")
+    changed = True
+    while changed:
+        changed = False
+        for name, fn in sc.methods.items():
+            if name in direct or name == "__init__":
+                continue
+            if any(m in direct for _, m in self_method_calls(fn.node)):
+                direct.add(name)
+                changed = True
+    return direct
